@@ -103,7 +103,14 @@ def check_triple(case):
             parent, canon = seg, fname
             exp = s + '|' * nsep + val
         else:
-            f = seg.add_field(fname)
+            if case.get('retype') and case.get('retype_how') == 'ctor':
+                # the field built with a datatype of its own (a varies field given its type, or a type other than the table's)
+                f = Field(fname, datatype=case['retype'], version=v, validation_level=TOL)
+                seg.add(f)
+            else:
+                f = seg.add_field(fname)
+                if case.get('retype'):
+                    f.datatype = case['retype']
             j, cname = case['j'], case['cname']
             if level == 'component':
                 parent, canon = f, cname
@@ -171,12 +178,18 @@ def check_negative(case):
     try:
         seg = Segment(s, version=v, validation_level=TOL)
         parent = seg
-        if case['on'] != 'segment':
+        if case['on'] == 'component':
+            # a component of the field, empty or holding its first sub-component
             f = seg.add_field(case['fname'])
+            parent = f.add_component(case['cname'])
+            if case['fill'] is not None:
+                parent.value = case['fill']
+        elif case['on'] != 'segment':
+            f = seg.add_field(case['fname'])
+            if case.get('retype'):
+                f.datatype = case['retype']
             f.value = case['fill']
             parent = f
-            if case['on'] == 'component':
-                parent = f.children[0]
         else:
             setattr(seg, case['fname'], case['fill'])
     except Exception as e:
@@ -408,6 +421,48 @@ def _run_version(shard, acc):
                         'why': why}, True)
         cx = [(r, T.ref_children(v, r[2])) for r in rows if T.ref_children(v, r[2])]
         if cx:
+            # a field given another complex datatype after the tables were consulted (assigned, or passed to the constructor):
+            # names, long names and paths of the NEW datatype address its components; the long names of the former one
+            # designate nothing any more
+            (fname, i, ref, card), ch = cx[rnd.randrange(len(cx))]
+            dts = [d for d in T.complex_datatypes(v) if d != ref[2]]
+            D = dts[rnd.randrange(len(dts))]
+            dch = T.dt_children(v, D)
+            dlongs = admissible_longnames(dch, Field)
+            for (cname, j, cref, ccard) in rnd.sample(list(dch), min(2, len(dch))):
+                cval = lit.valid(lit.first_leaf_dt(T, v, cref), 0)
+                csp = _spellings(cname, dlongs.get(cname), Field, rnd, paths=['%s_%d' % (fname, j)])
+                (A, ka), (B, kb), (C, kc) = rnd.choice(csp), rnd.choice(csp), rnd.choice(csp)
+                _emit2(acc, {'kind': 'triple', 'level': 'component', 'v': v, 's': s, 'fname': fname, 'i': i, 'cname': cname, 'retype': D,
+                             'retype_how': rnd.choice(['setter', 'ctor']), 'j': j, 'A': A, 'B': B, 'C': C, 'val': cval,
+                             'sigkey': 'retyped:%s>%s>%s' % (ka, kb, kc)}, True)
+            oldlongs = admissible_longnames(ch, Field)
+            newnames = set(x.upper() for x in dlongs.values()) | set(r[3].upper() for r in [c[2] for c in dch] if len(r) > 3 and r[3])
+            stale = [ln for ln in oldlongs.values() if ln.upper() not in newnames and spell_ok(Field, ln.lower())]
+            if stale:
+                _emit(acc, {'kind': 'negative', 'on': 'field', 'v': v, 's': s, 'fname': fname, 'retype': D,
+                            'fill': lit.valid(lit.first_leaf_dt(T, v, dch[0][2]), 0), 'bad': rnd.choice(stale).lower(),
+                            'why': 'long-name-of-the-former-datatype'}, True)
+            # components as parents: an empty one of a base datatype, and one of a complex datatype
+            for (cname, j, cref, ccard) in rnd.sample(list(ch), min(2, len(ch))):
+                sub = T.ref_children(v, cref)
+                cdt = cref[2]
+                if not sub and not (cdt and T.is_base(v, cdt)):
+                    continue
+                foreign = []
+                for d2 in T.complex_datatypes(v):
+                    if d2 == cdt or d2 == ref[2]:
+                        continue
+                    for (n2, j2, r2, c2) in T.dt_children(v, d2):
+                        same = (r2[2] == cdt)
+                        foreign.append((n2, 'foreign-subcomponent-of-the-same-datatype' if same else 'foreign-subcomponent'))
+                same = [x for x in foreign if x[1].endswith('same-datatype')]
+                probes = ([same[rnd.randrange(len(same))]] if same else []) + [foreign[rnd.randrange(len(foreign))]] + \
+                    [('%s_%d' % (cname, 1), 'path-on-component'), ('%s_%d' % (cdt, (len(sub) if sub else 1) + 1), 'subcomponent-index-beyond')]
+                for bad, why in probes:
+                    _emit(acc, {'kind': 'negative', 'on': 'component', 'v': v, 's': s, 'fname': fname, 'cname': cname,
+                                'fill': None if not sub else lit.valid(lit.first_leaf_dt(T, v, cref), 0),
+                                'bad': rnd.choice(case_variants(bad, rnd)), 'why': why + (':complex' if sub else ':base')}, True)
             (fname, i, ref, card), ch = cx[rnd.randrange(len(cx))]
             ncomp = len(ch)
             fill = lit.valid(lit.first_leaf_dt(T, v, ref), 0)
